@@ -61,8 +61,8 @@ def ccrash {α} (exc : String) : CR α := .error (.crash exc)
 
 /-- External calls made only at compile time. -/
 structure CExt where
-  /-- `re.compile(p).match(s) is not None` — an UNANCHORED-at-the-end (prefix) match -/
-  prefixMatch : String → String → Bool
+  /-- `float(n) == n`: the integer converts to a double without loss -/
+  intExact : Int → Bool
   /-- `datetime.datetime.strptime(s, fmt)` succeeds (arguments: format, text) -/
   strptimeOk : String → String → Bool
 
@@ -152,23 +152,22 @@ def check (E : Ext) (C : CExt) (us : List CUnion) : IrTy → Lit → CR Unit
     | _ => invalid "not a valid boolean"
   | .int cls mn mx, l => match l with
     | .int n => checkIntVal cls mn mx n
-    | .bool b => checkIntVal cls mn mx (if b then 1 else 0)       -- bool is numbers.Integral
+    | .bool _ => invalid "boolean is not a valid integer"          -- refused before the numbers.Integral test
     | _ => invalid "not a valid integer"
   | .float cls mn mx, l => match l with
     | .flt x => checkFloatVal E cls mn mx x
     | .int n => match E.fltOfInt n with
-      | some x => checkFloatVal E cls mn mx x
+      | some x => if C.intExact n then checkFloatVal E cls mn mx x
+                  else invalid "cannot be represented as a float exactly"
       | none => invalid "too large for float"
-    | .bool b => match E.fltOfInt (if b then 1 else 0) with
-      | some x => checkFloatVal E cls mn mx x
-      | none => invalid "too large for float"
+    | .bool _ => invalid "boolean is not a valid real number"
     | _ => invalid "not a valid real number"
   | .str minLen maxLen pat, l => match l with
     | .str s =>
       if !geOpt maxLen s.length then invalid "has more than max_length characters"
       else if !leOpt minLen s.length then invalid "has fewer than min_length characters"
       else match pat with
-        | some p => if p ≠ "" && !C.prefixMatch p s then invalid "did not match pattern" else .ok ()
+        | some p => if p ≠ "" && !E.patMatch p s then invalid "did not match pattern" else .ok ()   -- `fullmatch`
         | none => .ok ()
     | _ => invalid "not a valid string"
   | .bytes, l => match l with
@@ -232,9 +231,9 @@ def populateDefault (E : Ext) (C : CExt) (us : List CUnion) (t : IrTy) (lit : Li
   else if (unwrapAliases t).isNullableLit then invalid "Field cannot be a nullable type and have a default specified"
   -- only a primitive or a union (behind aliases) can carry a default: List / Map / struct are refused here
   else if !defaultable (unwrapAll t) then invalid "Field cannot have a default: only fields of a primitive or union type can"
-  else match coerceDefault E t lit with
+  else match check E C us t lit with                  -- the literal as written; `ValueError` from `check` is caught
     | .error e => .error e
-    | .ok d => (check E C us t d).map fun _ => d      -- `ValueError` from `check` is caught
+    | .ok _ => coerceDefault E t lit                  -- (cannot fail any more: `check` has converted the number already)
 
 /-- `_create_struct_field` (refusals that involve the default) followed by `_populate_field_defaults`. -/
 def fieldDefault (E : Ext) (C : CExt) (us : List CUnion) (t : IrTy) (lit : Lit) : CR Lit :=
@@ -314,7 +313,9 @@ def checkExample (E : Ext) (C : CExt) (us : List CUnion) : IrTy → ExVal → CR
     | .lit .null => .ok ()
     | _ => invalid "example of void type must be null"
   | .bytes, v => match v with
-    | .lit (.str _) => .ok ()
+    | .lit (.str s) => match E.b64dec s with
+      | some (some h) => if E.b64enc h == s then .ok () else invalid "not the base64 encoding of its bytes"
+      | _ => invalid "not base64-encoded bytes"
     | _ => invalid "not valid bytes"
   | .list t mn mx, v => match v with
     | .list xs =>
